@@ -1248,7 +1248,10 @@ class Engine:
                 e = e.func
             if isinstance(e, ast.Name):
                 name = e.id
-                if name in st.vars or name in self.bound:
+                bound_v = st.vars.get(name)
+                if isinstance(bound_v, PyConst) and isinstance(bound_v.val, tuple) and bound_v.val and bound_v.val[0] == "exc":
+                    name = bound_v.val[1]  # re-raise of a caught exception object
+                elif name in st.vars or name in self.bound:
                     name = getattr(st, "caught", "Exception")
         return [(st, ("raise", name))]
 
